@@ -54,7 +54,8 @@ RULE = ("random path expressions (depth <= 4 quick / <= 6 thorough; iri, ^, /, |
         "a list-valued end, Graph.value), route first_false (MulPath.eval(..., first=False) when the top is a MulPath) and the binding shapes of a path pattern in a "
         "BGP: ?x path ?x (same variable twice; also pre-bound by initBindings / VALUES), an end bound by another triple pattern written before / after.  Round h: every route that takes the case's graph object runs on one of five KINDS (plain Graph; Dataset(default_union=True), ConjunctiveGraph - three contexts of one store read as their union; ReadOnlyGraphAggregate of 2-3 members; ds.graph(g1) - a named-graph view beside other contexts holding other triples), route view compares triples() with the Lean evaluator over that OBJECT (plainView / unionView / aggView of the members), routes sparql_gvar1/2 = GRAPH ?g { s path o } per named graph.  non-trivial = the path has an operator and some binding with a given end has a non-empty answer; "
         "distinct = distinct (triples, path, ends)")
-ASSUMPTIONS = ["a Graph / Dataset / aggregate view is the set of its triples (C01/C02/C15)",
+ASSUMPTIONS = ["the store answers triples(pattern, context) with the matching triples of that context (C01/C02/C15); that a path evaluation over a "
+               "Graph / Dataset / ConjunctiveGraph / aggregate / named-graph object reads it through that method only is theorem view_eval_same",
                "VALUES-bound ends are only compared when the term occurs in the graph (for an absent term the algebra's "
                "answer differs from the answer for a constant in the pattern - C15-K1; the property speaks of given terms)"]
 TRUSTED = ["harness/c11.py generators, oracle and canonicalisation (incl. the lexer n3_words of n3() text and the sorting of negated-set members)",
